@@ -177,11 +177,180 @@ theorem C01_runIR_eq_eval_elseIf_partial (w : World) (l r : Expr) (env : Env)
   | error err => rfl
   | ok ls => exact or_model (eval w r) (runIR irTable w r) ls (ihr ls hl)
 
+theorem exec_seq_eq (lower : CallH) (nd : Node) (w : World) (a b : St) (fr : Frame) :
+    exec lower nd w (.seq a b) fr = (exec lower nd w a fr >>= fun o =>
+      match o.ctl with
+      | .next => exec lower nd w b o.fr >>= fun o2 => pure { fr := o2.fr, ys := o.ys ++ o2.ys, ctl := o2.ctl }
+      | _ => pure o) := by
+  rfl
+
+theorem or_allres (nd : Node) (hfind : irTable.find nd.cls "evaluate_right" = some mOrRight)
+    (hk : nd.keyOf .self = none) (w : World) (lower : CallH) (src : IEnv) (hsrc : src.own.lookup .self = none)
+    (ls : List (Env × Val × Bool)) : ∀ s p,
+    flatMapRF ls (orG (callWith irTable nd w lower) src) Prod.fst Prod.snd s = .ok p →
+      ∃ zs, p.1.mapM (conv nd) = .ok zs := by
+  induction ls with
+  | nil => intro s p h; cases h; exact ⟨[], rfl⟩
+  | cons a rest ih =>
+    intro s p h
+    obtain ⟨e1, v1, t⟩ := a
+    have hl : (wrapC .left src (e1, v1, t)).b.own.lookup .self = none := by
+      simp [wrapC, List.lookup, hsrc, show (NodeRef.self == NodeRef.left) = false from rfl]
+    cases t with
+    | true =>
+      simp only [flatMapRF, orG, if_true, pure_bind] at h
+      cases hr : flatMapRF rest (orG (callWith irTable nd w lower) src) Prod.fst Prod.snd false with
+      | error e => rw [hr] at h; cases h
+      | ok p' =>
+        rw [hr] at h; cases h
+        obtain ⟨zs, hz⟩ := ih _ _ hr
+        refine ⟨(e1, Val.none, true) :: zs, ?_⟩
+        show ([V.res (wrapC .left src (e1, v1, true))] ++ p'.1).mapM (conv nd) = _
+        have hX : [V.res (wrapC .left src (e1, v1, true))].mapM (conv nd) = (pure [(e1, Val.none, true)] : R _) := by
+          simp [conv, hk, wrapC, List.lookup, hsrc, show (NodeRef.self == NodeRef.left) = false from rfl]
+        rw [mapM_append_R, hX, hz]
+        rfl
+    | false =>
+      simp only [flatMapRF, orG, Bool.false_eq_true, if_false, bind_assoc, pure_bind] at h
+      rw [or_right_call nd hfind] at h
+      simp only [bind_assoc, pure_bind, iterV_list] at h
+      cases hR : nd.ev .right (wrapC .left src (e1, v1, false)).b.env with
+      | error e => rw [hR] at h; cases h
+      | ok rs =>
+        rw [hR] at h
+        replace h : (flatMapRF rest (orG (callWith irTable nd w lower) src) Prod.fst Prod.snd
+              (orRightFlag (wrapC .left src (e1, v1, false)).b s rs) >>= fun p' =>
+            (pure ((rs.map fun c => V.res (wrapC .right (wrapC .left src (e1, v1, false)).b c)) ++ p'.1, p'.2) : R (List V × Bool)))
+            = .ok p := h
+        cases hr : flatMapRF rest (orG (callWith irTable nd w lower) src) Prod.fst Prod.snd
+            (orRightFlag (wrapC .left src (e1, v1, false)).b s rs) with
+        | error e => rw [hr] at h; cases h
+        | ok p' =>
+          rw [hr] at h; cases h
+          obtain ⟨zs, hz⟩ := ih _ _ hr
+          refine ⟨(rs.map fun c => (c.1, Val.none, c.2.2)) ++ zs, ?_⟩
+          show ((rs.map fun c => V.res (wrapC .right (wrapC .left src (e1, v1, false)).b c)) ++ p'.1).mapM (conv nd) = _
+          rw [mapM_append_R, hz, mapM_conv_right nd hk _ hl rs]
+          rfl
+
+abbrev L3 (nd : Node) (w : World) : CallH := callWith irTable nd w (callWith irTable nd w (callWith irTable nd w call0))
+
+theorem runNode_union (nd : Node) (hcls : nd.cls = "Union") (hk : nd.keyOf .self = none) (w : World) (env : Env) :
+    runNode irTable nd w env = (nd.ev .left env >>= fun ls =>
+      (flatMapR ls fun a =>
+        if a.2.2 then pure [(a.1, Val.none, true)]
+        else (nd.ev .right a.1 >>= fun rs => pure (rs.map fun c => (c.1, Val.none, c.2.2)))) >>= fun a =>
+      nd.ev .right env >>= fun rs => pure (a ++ rs.map fun c => (c.1, Val.none, c.2.2))) := by
+  have hfR : irTable.find nd.cls "evaluate_right" = some mOrRight := by rw [hcls]; exact find_mOrRightU
+  rw [runNode_eq, callTop, callWith_find _ _ _ _ _ _ _ mUnion (by rw [hcls]; exact find_mUnion)]
+  simp only [mUnion, bindParams]
+  rw [prologue, exec_seq_eq]
+  rw [show exec (L3 nd w) nd w (.yldFrom (.call (.att .self "evaluate_left") (.cons (.nm "sources") .nil)))
+        { locals := [("sources", .env { env := env }), ("parent", .none)], isFalse := false }
+      = (L3 nd w "evaluate_left" [V.env { env := env }] false >>= fun p => iterV p.1 >>= fun xs =>
+            pure { fr := { locals := [("sources", .env { env := env }), ("parent", .none)], isFalse := p.2 }, ys := xs, ctl := .next })
+      from rfl]
+  have hyR : ∀ s, exec (L3 nd w) nd w (.yldFrom (.call (.att .self "evaluate_right") (.cons (.nm "sources") .nil)))
+        { locals := [("sources", .env { env := env }), ("parent", .none)], isFalse := s }
+      = (L3 nd w "evaluate_right" [V.env { env := env }] s >>= fun p => iterV p.1 >>= fun xs =>
+            pure { fr := { locals := [("sources", .env { env := env }), ("parent", .none)], isFalse := p.2 }, ys := xs, ctl := .next }) :=
+    fun s => rfl
+  rw [L3, or_left_call nd (by rw [hcls]; exact find_mOrLeftU)]
+  simp only [bind_assoc, pure_bind, iterV_list, hyR, or_right_call nd hfR, post_next]
+  cases nd.ev .left env with
+  | error e => rfl
+  | ok ls =>
+    have hfin := or_finish nd hfR hk w (callWith irTable nd w call0) { env := env } rfl ls false
+    cases hL : flatMapRF ls (orG (callWith irTable nd w (callWith irTable nd w call0)) { env := env }) Prod.fst Prod.snd false with
+    | error e =>
+      rw [hL] at hfin
+      show (flatMapRF ls _ Prod.fst Prod.snd false >>= _) = (flatMapR ls _ >>= _)
+      rw [hL, ← hfin]
+      rfl
+    | ok p =>
+      obtain ⟨zs, hz⟩ := or_allres nd hfR hk w _ { env := env } rfl ls false p hL
+      rw [hL] at hfin
+      have hM : flatMapR ls (fun a => if a.2.2 then (pure [(a.1, Val.none, true)] : R _)
+          else (nd.ev .right a.1 >>= fun rs => pure (rs.map fun c => (c.1, Val.none, c.2.2)))) = .ok zs := by
+        rw [← hfin]; exact hz
+      show (flatMapRF ls _ Prod.fst Prod.snd false >>= _) = (flatMapR ls _ >>= _)
+      rw [hL, hM]
+      show (nd.ev .right env >>= fun rs => (p.1 ++ rs.map fun c => V.res (wrapC .right { env := env } c)).mapM (conv nd))
+        = (nd.ev .right env >>= fun rs => pure (zs ++ rs.map fun c => (c.1, Val.none, c.2.2)))
+      congr 1
+      funext rs
+      rw [mapM_append_R, hz, mapM_conv_right nd hk _ rfl rs]
+      rfl
+
+/-- the `Union` node, pointwise: agreement on the left operand under `env`, on the right operand under the bindings of
+every FALSE result of the left operand and under `env` itself gives agreement on the union -/
+theorem C01_runIR_eq_eval_union_partial (w : World) (l r : Expr) (env : Env)
+    (ihl : runIR irTable w l env = liftE (eval w l env))
+    (ihr : ∀ ls, eval w l env = .ok ls → ∀ p ∈ ls, p.2 = false → runIR irTable w r p.1 = liftE (eval w r p.1))
+    (ihr0 : runIR irTable w r env = liftE (eval w r env)) :
+    runIR irTable w (.union l r) env = liftE (eval w (.union l r) env) := by
+  rw [runIR, runNode_union _ rfl rfl]
+  simp only [ihl, ihr0, eval]
+  cases hl : eval w l env with
+  | error err => rfl
+  | ok ls =>
+    have hm := or_model (eval w r) (runIR irTable w r) ls (ihr ls hl)
+    show ((flatMapR (addVal ls) _ >>= fun a => _) >>= fun rs => pure (dropVal rs))
+      = liftE (flatMapM ls (fun p => if p.2 then pure [(p.1, true)] else eval w r p.1) >>= fun a =>
+          eval w r env >>= fun b => pure (a ++ b))
+    cases hA : flatMapR (addVal ls) (fun a => if a.2.2 then (pure [(a.1, Val.none, true)] : R _)
+        else ((runIR irTable w r a.1 >>= fun x => pure (addVal x)) >>= fun rs => pure (rs.map fun c => (c.1, Val.none, c.2.2)))) with
+    | error e =>
+      rw [hA] at hm
+      cases hB : flatMapM ls (fun p => if p.2 then pure [(p.1, true)] else eval w r p.1) with
+      | error e' => rw [hB] at hm; cases hm; rfl
+      | ok a' => rw [hB] at hm; cases hm
+    | ok a =>
+      rw [hA] at hm
+      cases hB : flatMapM ls (fun p => if p.2 then pure [(p.1, true)] else eval w r p.1) with
+      | error e' => rw [hB] at hm; cases hm
+      | ok a' =>
+        rw [hB] at hm
+        have ha : dropVal a = a' := by cases hm; rfl
+        cases eval w r env with
+        | error e2 => rfl
+        | ok b =>
+          simp [liftE, dropVal, addVal, ← ha, List.map_map, Function.comp_def]
+          rfl
+
+/-- the class of expressions on which `runIR irTable` agrees with `eval` under EVERY environment is closed under `not_`,
+`and_` and both forms of `or_` (`ElseIf`, `Union`) — PARTIAL: the full statement `∀ e env, runIR irTable w e env =
+liftE (eval w e env)` also needs the leaves (`Comparator`, the `DomainMapping` / `Variable` terms, `HasType`) and the
+quantifiers (`Exists`, `ForAll`), which are validated by the driver cross-check only -/
+theorem C01_runIR_eq_eval_connectives_partial (w : World) (Agree : Expr → Prop)
+    (hA : ∀ e, Agree e ↔ ∀ env, runIR irTable w e env = liftE (eval w e env)) :
+    (∀ e, Agree e → Agree (.not e)) ∧ (∀ l r, Agree l → Agree r → Agree (.and l r)) ∧
+    (∀ l r, Agree l → Agree r → Agree (.elseIf l r)) ∧ (∀ l r, Agree l → Agree r → Agree (.union l r)) := by
+  refine ⟨fun e h => (hA _).2 fun env => C01_runIR_eq_eval_not_partial w e env ((hA _).1 h env),
+    fun l r hl hr => (hA _).2 fun env => C01_runIR_eq_eval_and_partial w l r env ((hA _).1 hl env) (fun _ _ p _ _ => (hA _).1 hr p.1),
+    fun l r hl hr => (hA _).2 fun env => C01_runIR_eq_eval_elseIf_partial w l r env ((hA _).1 hl env) (fun _ _ p _ _ => (hA _).1 hr p.1),
+    fun l r hl hr => (hA _).2 fun env => C01_runIR_eq_eval_union_partial w l r env ((hA _).1 hl env)
+      (fun _ _ p _ _ => (hA _).1 hr p.1) ((hA _).1 hr env)⟩
+
+example (w : World) : ∃ Agree : Expr → Prop, ∀ e, Agree e ↔ ∀ env, runIR irTable w e env = liftE (eval w e env) :=
+  ⟨fun e => ∀ env, runIR irTable w e env = liftE (eval w e env), fun _ => Iff.rfl⟩
+
 /-! ### non-vacuity (kernel-evaluated leaves) -/
 
 example : runIR irTable w0 (.elseIf (.not (.truth (.var 0))) (.truth (.var 0))) []
     = liftE (eval w0 (.elseIf (.not (.truth (.var 0))) (.truth (.var 0))) []) := by
   refine C01_runIR_eq_eval_elseIf_partial w0 _ _ _ (C01_runIR_eq_eval_not_partial w0 _ _ leaf0) ?_
+  intro ls hls p hp _
+  have : ls = [([(.var 0, .bool true)], false), ([(.var 0, .bool false)], false)] := by
+    have h0 : eval w0 (.not (.truth (.var 0))) [] = .ok [([(.var 0, .bool true)], false), ([(.var 0, .bool false)], false)] := by rfl
+    rw [h0] at hls; cases hls; rfl
+  subst this
+  simp only [List.mem_cons, List.mem_nil_iff, or_false] at hp
+  rcases hp with rfl | rfl <;> rfl
+
+example : runIR irTable w0 (.union (.not (.truth (.var 0))) (.truth (.var 0))) []
+    = liftE (eval w0 (.union (.not (.truth (.var 0))) (.truth (.var 0))) []) := by
+  refine C01_runIR_eq_eval_union_partial w0 _ _ _ (C01_runIR_eq_eval_not_partial w0 _ _ leaf0) ?_ leaf0
   intro ls hls p hp _
   have : ls = [([(.var 0, .bool true)], false), ([(.var 0, .bool false)], false)] := by
     have h0 : eval w0 (.not (.truth (.var 0))) [] = .ok [([(.var 0, .bool true)], false), ([(.var 0, .bool false)], false)] := by rfl
